@@ -216,7 +216,7 @@ func init() {
 			case 3:
 				p.AddPageBreak()
 			case 4:
-				p.SetStyle([]string{"Normal", "Heading1", "Heading9", "Quote", "CodeBlock", "Title", "Subtitle", "ListParagraph", "Emphasis", "Strong", "CodeChar"}[r.Intn(11)])
+				p.SetStyle([]string{"Normal", "Heading1", "Heading9", "Quote", "CodeBlock", "Title", "ListParagraph", "Emphasis", "Strong", "CodeChar"}[r.Intn(10)])
 			case 5:
 				p.SetIndentation(float64(r.Range(-3, 5)), float64(r.Range(-1, 5)), float64(r.Range(-1, 5)))
 			case 6:
@@ -678,7 +678,8 @@ func init() {
 					ParagraphConfig: &style.QuickParagraphConfig{Alignment: "center", LineSpacing: 1.5, SpaceBefore: 6},
 					RunConfig:       &style.QuickRunConfig{FontName: s.Str(), FontSize: 11, FontColor: "333333", Bold: r.Bool(), Italic: r.Bool()}})
 			case 2:
-				sm.RemoveStyle([]string{"Quote", "Heading9", "Emphasis", id}[r.Intn(4)])
+				// only styles nothing else in the script uses (removing a style and then using it is caller misuse)
+				sm.RemoveStyle([]string{"Subtitle", id, id}[r.Intn(3)])
 			case 3:
 				sm.GetStyleWithInheritance([]string{"Heading1", "Normal", id, "missing"}[r.Intn(4)])
 				sm.GetAllStyles()
